@@ -92,7 +92,14 @@ class _NormaliseIf(ast.NodeTransformer):
                 out.extend(st)
                 continue
             if isinstance(st, ast.If):
-                st = self._flip(st)
+                # `if a:\n    if b: X` (no else anywhere)  ->  `if a and b: X`
+                while not st.orelse and len(st.body) == 1 and isinstance(st.body[0], ast.If) and not st.body[0].orelse:
+                    inner = st.body[0]
+                    vals = (st.test.values if isinstance(st.test, ast.BoolOp) and isinstance(st.test.op, ast.And) else [st.test]) + (inner.test.values if isinstance(inner.test, ast.BoolOp) and isinstance(inner.test.op, ast.And) else [inner.test])
+                    st.test = ast.copy_location(ast.BoolOp(op=ast.And(), values=list(vals)), st.test)
+                    st.body = inner.body
+                if not (st.orelse and st.body and isinstance(st.body[-1], _TERMINATORS) and not isinstance(st.orelse[-1], _TERMINATORS)):
+                    st = self._flip(st)  # a guard `if not X: raise ... else: <rest that falls through>` keeps its test and is flattened below
                 if st.orelse and st.body and isinstance(st.body[-1], _TERMINATORS):
                     tail = st.orelse
                     st.orelse = []
@@ -147,6 +154,27 @@ class _NormaliseIf(ast.NodeTransformer):
                 out.append(ast.copy_location(ast.Return(value=st.value), st))
                 i += 2
                 continue
+            # `t = E; <simple statement using t exactly once>` with t used nowhere else: substitute (the inverse of 'introduce a
+            # temporary for an argument'); never into a nested scope (lambda / comprehension / def), whose body runs later
+            if (
+                isinstance(st, ast.Assign) and len(st.targets) == 1 and isinstance(st.targets[0], ast.Name)
+                and isinstance(st.value, ast.Call)
+                and isinstance(nx, (ast.Expr, ast.Assign, ast.AugAssign, ast.Return, ast.AnnAssign))
+                and counts.get(st.targets[0].id, 0) == 2
+            ):
+                name = st.targets[0].id
+                use = [n for n in ast.walk(nx) if isinstance(n, ast.Name) and n.id == name]
+                nested = any(isinstance(sc, (ast.Lambda, ast.ListComp, ast.SetComp, ast.DictComp, ast.GeneratorExp, ast.FunctionDef)) and any(u is x for x in ast.walk(sc) for u in use) for sc in ast.walk(nx))
+                if len(use) == 1 and isinstance(use[0].ctx, ast.Load) and not nested:
+                    val = st.value
+
+                    class _Sub(ast.NodeTransformer):
+                        def visit_Name(self, n, _u=use[0], _v=val):
+                            return _v if n is _u else n
+
+                    stmts[i + 1] = _Sub().visit(nx)
+                    i += 1
+                    continue
             out.append(st)
             i += 1
         return out
